@@ -53,6 +53,11 @@ func init() {
 		"(reflect.Value).NumMethod":       ext۰reflect۰Value۰NumMethod,
 		"(reflect.Value).Pointer":         ext۰reflect۰Value۰Pointer,
 		"(reflect.Value).Set":             ext۰reflect۰Value۰Set,
+		"(reflect.Value).SetBool":         ext۰reflect۰Value۰SetBool,
+		"(reflect.Value).FieldByNameFunc": ext۰reflect۰Value۰FieldByNameFunc,
+		"(reflect.rtype).FieldByNameFunc": ext۰reflect۰rtype۰FieldByNameFunc,
+		"(reflect.rtype).Name":            ext۰reflect۰rtype۰Name,
+		"reflect.Append":                  ext۰reflect۰Append,
 		"(reflect.Value).String":          ext۰reflect۰Value۰String,
 		"(reflect.Value).Type":            ext۰reflect۰Value۰Type,
 		"(reflect.Value).Uint":            ext۰reflect۰Value۰Uint,
